@@ -578,17 +578,66 @@ def rule_greens_function(rep: Report, repo: Repo):
     param = f.args.args[0].arg
     g = CFG(f)
     dom = g.dominators()
-    proj = [n for n in g.nodes if isinstance(n.ast, ast.Assign) and norm(n.ast.targets[0]) == param
+    # X: the name that receives P @ <param> (the parameter itself may be rebound)
+    proj = [n for n in g.nodes if isinstance(n.ast, ast.Assign) and len(n.ast.targets) == 1 and isinstance(n.ast.targets[0], ast.Name)
             and norm(n.ast.value) == f"kernel_projector @ {param}"]
+    if len(proj) > 1:
+        raise AnalysisError(R, f"greens_function: {len(proj)} assignments of `kernel_projector @ {param}`")
+    if not proj:
+        uses_proj = any(isinstance(n_, ast.BinOp) and isinstance(n_.op, ast.MatMult) and norm(n_.left) == "kernel_projector"
+                        and any(isinstance(x, ast.Name) and x.id == param for x in ast.walk(n_.right)) for n_ in own_nodes(f))
+        if uses_proj:
+            raise AnalysisError(R, "greens_function: the projection of the right-hand side has an unrecognised form")
+        rep.fail(R, "linalg::direct_greens_function::greens_function projects the right-hand side before the solve",
+                 f"`kernel_projector @ {param}` does not occur: (E - H) x = v is solved with the kernel component still in v", loc(f))
+        return
+    X = proj[0].ast.targets[0].id
+    solve_calls = [c for c in own_nodes(f) if isinstance(c, ast.Call) and call_name(c) == "solve"]
     solves = [n for n in g.nodes if n.ast is not None and not isinstance(n.ast, ast.FunctionDef)
               and any(isinstance(c, ast.Call) and call_name(c) == "solve" for c in ast.walk(n.ast))]
     rep.floor(R, "calls of the factorised solve", len(solves), 1)
-    ok = bool(proj) and all(any(p.id in dom[s.id] for p in proj) for s in solves)
+
+    busy = set()
+
+    def derived(e, depth=0):
+        """True if the expression is the projected right-hand side X, its real / imaginary part, or an element of a tuple of
+        those; None if not understood."""
+        if depth > 6:
+            return None
+        if isinstance(e, ast.Attribute) and e.attr in ("real", "imag"):
+            return derived(e.value, depth + 1)
+        if isinstance(e, (ast.Tuple, ast.List)):
+            r = [derived(x, depth + 1) for x in e.elts]
+            return None if None in r else all(r)
+        if isinstance(e, ast.BinOp) and norm(e) == f"kernel_projector @ {param}":
+            return True
+        if isinstance(e, ast.Name):
+            if e.id in busy:
+                return True  # a rebinding in terms of itself: decided by the other definitions
+            srcs = []
+            for n in own_nodes(f):
+                if isinstance(n, ast.Assign) and any(isinstance(t, ast.Name) and t.id == e.id for t in n.targets):
+                    srcs.append(n.value)
+                if isinstance(n, (ast.For, ast.comprehension)) and isinstance(n.target, ast.Name) and n.target.id == e.id:
+                    srcs.append(n.iter)
+            if not srcs:
+                return False if e.id == param and X != param else None
+            busy.add(e.id)
+            try:
+                r = [derived(v, depth + 1) for v in srcs]
+            finally:
+                busy.discard(e.id)
+            return None if None in r else all(r)
+        return None
+    verdicts = [derived(c.args[0]) if len(c.args) == 1 else None for c in solve_calls]
+    if None in verdicts:
+        raise AnalysisError(R, "greens_function: the argument of `solve` could not be traced to the projected right-hand side")
+    ok = all(verdicts) and all(proj[0].id in dom[s_.id] for s_ in solves)
     rep.check(ok, R, "linalg::direct_greens_function::greens_function projects the right-hand side before the solve",
-              "(E - H) x = P v: the kernel component is removed first", loc(f))
-    piv = [n for n in g.nodes if isinstance(n.ast, ast.Assign) and norm(n.ast) == f"{param}[pivot_rows] = 0"]
-    ok = bool(piv) and all(any(p.id in dom[s.id] for p in piv) for s in solves) and \
-        all(any(pr.id in dom[p.id] for pr in proj) for p in piv)
+              f"(E - H) x = P v: every solve() argument derives from `{X} = kernel_projector @ {param}`", loc(f))
+    piv = [n for n in g.nodes if isinstance(n.ast, ast.Assign) and norm(n.ast) == f"{X}[pivot_rows] = 0"]
+    ok = bool(piv) and all(any(p_.id in dom[s_.id] for p_ in piv) for s_ in solves) and \
+        all(proj[0].id in dom[p_.id] for p_ in piv)
     rep.check(ok, R, "linalg::direct_greens_function::greens_function zeroes the pivot rows after projecting and before the solve",
               "the constrained equations x[pivot] = 0 need a zero right-hand side", loc(f))
     rets = [n for n in own_nodes(f) if isinstance(n, ast.Return)]
@@ -596,13 +645,42 @@ def rule_greens_function(rep: Report, repo: Repo):
         and norm(rets[0].value.left) == "kernel_projector"
     rep.check(ok, R, "linalg::direct_greens_function::greens_function returns the solution projected onto range(P)",
               norm(rets[0]) if rets else "", loc(f))
-    # real/imag split recombination
-    comb = [n for n in own_nodes(f) if isinstance(n, ast.Assign) and norm(n.targets[0]) == "result"]
-    ok = len(comb) == 1 and norm(comb[0].value) == "sol[0] if len(sol) == 1 else sol[0] + 1j * sol[1]"
-    split = [n for n in own_nodes(f) if isinstance(n, ast.Assign) and norm(n.value) == f"({param}.real, {param}.imag)"]
-    rep.check(ok and len(split) == 1, R,
+    # real/imag split: chosen exactly for a complex right-hand side with a real factorisation; recombined as re + i*im
+    from .sem import canon as _canon, outcomes as _outcomes
+    from .paths import eval_bool as _eb
+    table = {}
+    for rhs_complex in (False, True):
+        for fact_complex in (False, True):
+            def atom(n):
+                t = norm(_canon(n))
+                if t == "is_complex":
+                    return fact_complex
+                if isinstance(n, ast.Call) and call_name(n) == "np.iscomplexobj" and len(n.args) == 1 and derived(n.args[0]) is True:
+                    return rhs_complex
+                return None
+            kinds = set()
+            for o in _outcomes(f.body, None, env={}, atom=atom, expand=False):
+                for kind, st, rv in o.seq:
+                    if kind == "assign" and isinstance(rv, ast.Tuple):
+                        parts = [x for x in rv.elts]
+                        if len(parts) == 2 and all(isinstance(x, ast.Attribute) for x in parts) and [x.attr for x in parts] == ["real", "imag"]:
+                            kinds.add("split")
+                        elif len(parts) == 1:
+                            kinds.add("single")
+                        else:
+                            kinds.add("other:" + norm(rv)[:40])
+            table[(rhs_complex, fact_complex)] = sorted(kinds)
+    want = {(False, False): ["single"], (False, True): ["single"], (True, True): ["single"], (True, False): ["split"]}
+    comb = [n for n in own_nodes(f) if isinstance(n, ast.IfExp)]
+    ok_comb = False
+    for c in comb:
+        sols = {n_.id for n_ in ast.walk(c) if isinstance(n_, ast.Name)}
+        for S in sols:
+            if norm(c) == f"{S}[0] if len({S}) == 1 else {S}[0] + 1j * {S}[1]":
+                ok_comb = True
+    rep.check(table == want and ok_comb, R,
               "linalg::direct_greens_function::greens_function complex right-hand side with a real factorisation: solve real and imaginary parts, recombine as re + i*im",
-              "", loc(f))
+              f"split chosen for (rhs complex, factorisation complex): {table}", loc(f))
     # matrix orientation E - H, projector arguments
     mats = [n for n in own_nodes(outer) if isinstance(n, ast.Assign) and norm(n.targets[0]) == "mat"]
     ok = bool(mats) and isinstance(mats[0].value, ast.BinOp) and isinstance(mats[0].value.op, ast.Sub) and norm(mats[0].value.right) == "h" \
@@ -632,82 +710,8 @@ def rule_greens_function(rep: Report, repo: Repo):
 
 
 def rule_solve_scalar(rep: Report, repo: Repo):
-    """H_ii V - V H_jj = Y term by term:  H_ii(N) (a†)^m v(N) a^p - (a†)^m v(N) a^p H_jj(N)
-    = (a†)^m [H_ii(N + m) - H_jj(N + p)] v(N) a^p   (fermions/spins: N -> 1 on the side that carries the operator)."""
-    R = "E7.solve_scalar"
-    f = repo.find("second_quantization::solve_scalar", R)
-    loc = lambda n: repo.loc("second_quantization", n)
-    asg = {}
-    for n in own_nodes(f):
-        if isinstance(n, ast.Assign) and isinstance(n.targets[0], ast.Name):
-            asg.setdefault(n.targets[0].id, []).append(n)
-    def shift_info(name):
-        a = asg.get(name, [])
-        if len(a) != 1:
-            return None
-        v = a[0].value
-        if not (isinstance(v, ast.Call) and isinstance(v.func, ast.Attribute) and v.func.attr == "xreplace"
-                and len(v.args) == 1 and isinstance(v.args[0], ast.DictComp)):
-            return None
-        dc = v.args[0]
-        gen = dc.generators[0]
-        tnames = [norm(e) for e in gen.target.elts] if isinstance(gen.target, ast.Tuple) else []
-        if norm(gen.iter) != "zip(shift, operators)" or len(tnames) != 2:
-            return None
-        delta, op = tnames
-        filt = [norm(c) for c in gen.ifs]
-        val = dc.value
-        if not isinstance(val, ast.IfExp):
-            return None
-        inf_arm, bin_arm = val.body, val.orelse
-        if "isinstance(op, (BosonOp, LadderOp))" not in norm(val.test).replace(op, "op"):
-            return None
-        sign = None
-        if isinstance(inf_arm, ast.BinOp) and norm(inf_arm.right) == delta and norm(inf_arm.left) == norm(dc.key):
-            sign = "+" if isinstance(inf_arm.op, ast.Add) else "-" if isinstance(inf_arm.op, ast.Sub) else None
-        return {"base": norm(v.func.value), "filter": [c.replace(delta, "delta") for c in filt], "sign": sign, "binary": norm(bin_arm), "node": a[0]}
-    jj, ii = shift_info("shifted_H_jj"), shift_info("shifted_H_ii")
-    ok = jj is not None and jj["base"] == "H_jj" and jj["filter"] == ["delta > 0"] and jj["sign"] == "+" and jj["binary"] in ("sympy.S.One", "One")
-    rep.check(ok, R, "second_quantization::solve_scalar annihilation powers (delta > 0) shift H_jj by N -> N + delta (binary modes -> 1)",
-              str({k: v for k, v in (jj or {}).items() if k != "node"}), loc(jj["node"] if jj else f))
-    ok = ii is not None and ii["base"] == "H_ii" and ii["filter"] == ["delta < 0"] and ii["sign"] == "-" and ii["binary"] in ("sympy.S.One", "One")
-    rep.check(ok, R, "second_quantization::solve_scalar creation powers (delta < 0) shift H_ii by N -> N - delta (binary modes -> 1)",
-              str({k: v for k, v in (ii or {}).items() if k != "node"}), loc(ii["node"] if ii else f))
-    # sign-invariant denominator
-    den = asg.get("denominator", [])
-    branch = [n for n in own_nodes(f) if isinstance(n, ast.If) and norm(n.test) in ("sign is sympy.S.One", "sign == sympy.S.One", "sign is One")]
-    ok = False
-    if len(branch) == 1 and branch[0].orelse:
-        pos = [norm(s.value) for s in branch[0].body if isinstance(s, ast.Assign) and norm(s.targets[0]) == "denominator"]
-        neg = [norm(s.value) for s in branch[0].orelse if isinstance(s, ast.Assign) and norm(s.targets[0]) == "denominator"]
-        ok = pos == ["shifted_H_ii - shifted_H_jj"] and neg == ["shifted_H_jj - shifted_H_ii"]
-    rep.check(ok, R, "second_quantization::solve_scalar denominator is sign * (H_ii' - H_jj')", "", loc(branch[0] if branch else f))
-    st = [n for n in own_nodes(f) if isinstance(n, ast.Assign) and norm(n.targets[0]) == "new_shifts[shift]"]
-    ok = len(st) == 1 and norm(st[0].value) in ("sign * denominator ** (-sympy.S.One) * coeff", "sign * coeff / denominator", "sign * coeff * denominator ** (-sympy.S.One)")
-    rep.check(ok, R, "second_quantization::solve_scalar solution coefficient = sign * coeff / denominator = coeff / (H_ii' - H_jj')",
-              norm(st[0].value) if st else "", loc(st[0] if st else f))
-    sg = asg.get("sign", [])
-    ok = len(sg) == 1 and norm(sg[0].value) in ("-sympy.S.One if tuple(shift) < (0,) * len(shift) else sympy.S.One",)
-    rep.check(ok, R, "second_quantization::solve_scalar `sign` only takes the values +1 / -1", norm(sg[0].value) if sg else "", loc(f))
-    # diagonal shortcut: only lexicographically negative shifts are solved, the rest is minus the adjoint
-    sk = [n for n in own_nodes(f) if isinstance(n, ast.If) and norm(n.test) == "diagonal and sign is sympy.S.One"]
-    fin = [n for n in own_nodes(f) if isinstance(n, ast.If) and norm(n.test) == "diagonal"]
-    ok = len(sk) == 1 and isinstance(sk[0].body[0], ast.Continue) and len(fin) == 1 and norm(fin[0].body[0]) == "result -= result.adjoint()"
-    rep.check(ok, R, "second_quantization::solve_scalar diagonal entries: solve half of the terms, complete with minus the adjoint (anti-Hermitian solution)",
-              "", loc(f))
-    # the matrix wrapper: element (i, j) uses eigs_A[i], eigs_B[j]; lower triangle of diagonal blocks = -adjoint of upper
-    w = repo.find("second_quantization::solve_sylvester_2nd_quant", R)
-    inner = [d for d in nested_defs(w) if d.name == "solve_sylvester"][0]
-    calls = [c for c in ast.walk(inner) if isinstance(c, ast.Call) and call_name(c) == "solve_scalar"]
-    ok = len(calls) == 1 and [norm(a) for a in calls[0].args] == ["Y[i, j]", "eigs_A[i]", "eigs_B[j]"] and \
-        {k.arg: norm(k.value) for k in calls[0].keywords} == {"diagonal": "i == j and index[0] == index[1]"}
-    rep.check(ok, R, "second_quantization::solve_sylvester_2nd_quant element (i, j) is solved with H_ii = eigs_A[i], H_jj = eigs_B[j]", "", loc(inner))
-    e = [norm(n.value) for n in own_nodes(inner) if isinstance(n, ast.Assign) and isinstance(n.targets[0], ast.Tuple) and norm(n.targets[0]) == "(eigs_A, eigs_B)"]
-    rep.check(e == ["(eigs[index[0]], eigs[index[1]])"], R, "second_quantization::solve_sylvester_2nd_quant eigs_A, eigs_B = eigs[index[0]], eigs[index[1]]", str(e), loc(inner))
-    fill = [n for n in own_nodes(inner) if isinstance(n, ast.Assign) and norm(n.targets[0]) == "result[i, j]" and "adjoint" in norm(n.value)]
-    ok = len(fill) == 1 and norm(fill[0].value) == "-result[j, i].adjoint()" and isinstance(fill[0]._parent, ast.If) \
-        and norm(fill[0]._parent.test) == "index[0] == index[1] and i < j"
-    rep.check(ok, R, "second_quantization::solve_sylvester_2nd_quant upper triangle of a diagonal block = minus the adjoint of the computed lower triangle", "", loc(inner))
+    from .e7b import rule_solve_scalar as _r
+    _r(rep, repo)
 
 
 # ---------------------------------------------------------------------------
